@@ -35,3 +35,7 @@ claim("C13", "exhaustive single-deviation mutation of seed archives (7 byte valu
   "Every seed archive up to the bound and every 1-deviation neighbour that NewReader accepts is inspected and independently scanned (library BlockReader cross-checked by the reference scan); verdict equivalence and every statistic are compared. Exhaustive over the 1-deviation neighbourhood.",
   "Inputs where the two scans disagree (e.g. inner header version != 1) are excluded as oracle-ambiguous and counted; corruption coverage is the 1-deviation neighbourhood only.",
   "DESIGN.md 5/C13")
+claim("C04", "explicit-state breadth-first search over operation sequences on the real stores (successor = replay on a fresh instance), every observer compared with a reference map model in every reached state",
+  "All mutator sequences up to the depth bound over a collision-rich alphabet (equal multihash/different codec, equal digest/different hash function, identity, over-long CID, batches, lifecycle calls) for 64 configurations x 2 front-ends; all observers are evaluated in every state. Exhaustive within the bound with state de-duplication on model state + implementation fingerprint.",
+  "Trusted: the map model (DESIGN A.4). Not compared: identity lookups after close; lifecycle return values other than first success.",
+  "DESIGN.md 5/C04")
